@@ -892,11 +892,8 @@ func (e *env) method(name string, n ast.Node, item any, unwrap bool, next func(a
 		if !ok {
 			return soft("keyvalue on non-object")
 		}
-		for _, mv := range obj {
-			if _, isID := mv.(KVID); isID {
-				return unspec("keyvalue of a generated triple (id flows into a value)")
-			}
-		}
+		// (a generated triple is an object like any other: its triples carry
+		// the id of the triple it was, and the id member becomes a value)
 		id := KVID{Owner: fmt.Sprintf("%p", obj)}
 		ks := make([]string, 0, len(obj))
 		for k := range obj {
@@ -946,7 +943,9 @@ func bareID(v any, top bool) bool {
 		}
 	case map[string]any:
 		for k, x := range v {
-			if top && k == "id" && len(v) == 3 {
+			if top && (k == "id" || k == "value") && len(v) == 3 {
+				// the id of a triple, or - in the triple of a triple - the id
+				// that was a member value one level up
 				if _, ok := x.(KVID); ok {
 					continue
 				}
